@@ -413,6 +413,8 @@ pub enum Form {
     /// an application-defined `impl PasetoClaim` (not one of the crate's claim types) whose serialisation is
     /// a one-member object named `exp` (i.e. NOT named like the claim key); `value` is the member's value
     ForeignOneField,
+    /// a registered claim type constructed with `Default::default()`
+    RegisteredDefault,
 }
 
 #[derive(Clone, Debug, PartialEq, Serialize, Deserialize)]
@@ -599,6 +601,20 @@ pub fn put_claim<'a, S: ClaimSink<'a>>(sink: &mut S, spec: &'a ClaimSpec) -> Res
         }
         Form::ForeignOneField => {
             sink.put(ForeignClaim { key: spec.key.clone(), member_value: spec.value.clone() });
+            Ok(())
+        }
+        Form::RegisteredDefault => {
+            // the registered claim types through `Default::default()` (their documented placeholder values)
+            match key {
+                "iss" => sink.put(IssuerClaim::default()),
+                "sub" => sink.put(SubjectClaim::default()),
+                "aud" => sink.put(AudienceClaim::default()),
+                "jti" => sink.put(TokenIdentifierClaim::default()),
+                "exp" => sink.put(ExpirationClaim::default()),
+                "nbf" => sink.put(NotBeforeClaim::default()),
+                "iat" => sink.put(IssuedAtClaim::default()),
+                _ => return Err(ErrClass::Harness("RegisteredDefault needs a registered key".into())),
+            }
             Ok(())
         }
         Form::Native(n) => {
